@@ -1,5 +1,5 @@
 import TlxVerif.Model.Drv
-import TlxVerif.Model.C16RingBuffer
+import TlxVerif.Model.C16Machine
 import TlxVerif.Model.C16SimpleVector
 open TlxVerif TlxVerif.C16
 
@@ -27,83 +27,44 @@ def showOpt : Option Elem → String
 
 def ans (s : St) (ret : String) : St × String := (s, s!"{ret} ; {dumpAll s}")
 
-def stepRB (s : St) (ts : List String) : Option (St × String) :=
+/-- protocol line → typed operation of `Model/C16Machine.lean` -/
+def parseOp (ts : List String) : Option Op :=
   match ts with
-  | ["new", r, m] => do
-      let r ← r.toNat?; let m ← m.toNat?
-      pure (ans (setR s r (some (RB.new m))) "ok")
-  | [op, r, v] => do
-      let r ← r.toNat?
-      match op with
-      | "pushb" | "emplb" => do
-          let v ← v.toInt?; let x ← getR s r
-          match x.pushBack v with
-          | some x' => pure (ans (setR s r x') "ok")
-          | none => pure (s, "LIFETIME-ERROR")
-      | "pushf" | "emplf" => do
-          let v ← v.toInt?; let x ← getR s r
-          match x.pushFront v with
-          | some x' => pure (ans (setR s r x') "ok")
-          | none => pure (s, "LIFETIME-ERROR")
-      | "at" => do
-          let i ← v.toNat?; let x ← getR s r
-          pure (ans s (showOpt (x.at? i)))
-      | "alloc" => do
-          let m ← v.toNat?; let x ← getR s r
-          pure (ans (setR s r (some (x.allocate m))) "ok")
-      | "copyctor" => do
-          let src ← v.toNat?; let x ← getR s src
-          match x.copyCtor with
-          | some y => pure (ans (setR s r (some y)) "ok")
-          | none => pure (s, "LIFETIME-ERROR")
-      | "movector" => do
-          let src ← v.toNat?; let x ← getR s src
-          let (y, x') := x.moveCtor
-          pure (ans (setR (setR s r (some y)) src (some x')) "ok")
-      | "assign" => do
-          let src ← v.toNat?; let x ← getR s src; let d ← getR s r
-          if src = r then pure (ans s "ok") else
-          match d.copyAssign x with
-          | some y => pure (ans (setR s r (some y)) "ok")
-          | none => pure (s, "LIFETIME-ERROR")
-      | "massign" => do
-          let src ← v.toNat?; let x ← getR s src; let d ← getR s r
-          if src = r then pure (ans s "ok") else
-          match d.moveAssign x with
-          | some (y, x') => pure (ans (setR (setR s r (some y)) src (some x')) "ok")
-          | none => pure (s, "LIFETIME-ERROR")
-      | _ => none
-  | [op, r] => do
-      let r ← r.toNat?
-      let x ← getR s r
-      let upd (o : Option RB) : Option (St × String) :=
-        match o with
-        | some x' => pure (ans (setR s r (some x')) "ok")
-        | none => pure (s, "LIFETIME-ERROR")
-      match op with
-      | "popf" => upd x.popFront
-      | "popb" => upd x.popBack
-      | "clear" => upd x.clear
-      | "dealloc" => upd x.deallocate
-      | "front" => pure (ans s (showOpt x.front?))
-      | "back" => pure (ans s (showOpt x.back?))
-      | "size" => pure (ans s (toString x.size))
-      | "empty" => pure (ans s (if x.empty then "1" else "0"))
-      | "copyto" =>
-          match x.toList? with
-          | some l => pure (ans s ("[" ++ ",".intercalate (l.map toString) ++ "]"))
-          | none => pure (s, "LIFETIME-ERROR")
-      | "moveto" =>
-          match x.toList?, x.clear with
-          | some l, some x' => pure (ans (setR s r (some x')) ("[" ++ ",".intercalate (l.map toString) ++ "]"))
-          | _, _ => pure (s, "LIFETIME-ERROR")
-      | "dtor" =>
-          match x.dtor with
-          | some 0 => pure (ans (setR s r none) "ok")
-          | some n => pure (setR s r none, s!"LEAK {n}")
-          | none => pure (s, "LIFETIME-ERROR")
-      | _ => none
+  | ["new", r, m] => do pure (.new (← r.toNat?) (← m.toNat?))
+  | ["pushb", r, v] | ["emplb", r, v] => do pure (.pushB (← r.toNat?) (← v.toInt?))
+  | ["pushf", r, v] | ["emplf", r, v] => do pure (.pushF (← r.toNat?) (← v.toInt?))
+  | ["popf", r] => do pure (.popF (← r.toNat?))
+  | ["popb", r] => do pure (.popB (← r.toNat?))
+  | ["clear", r] => do pure (.clear (← r.toNat?))
+  | ["front", r] => do pure (.front (← r.toNat?))
+  | ["back", r] => do pure (.back (← r.toNat?))
+  | ["at", r, i] => do pure (.at (← r.toNat?) (← i.toNat?))
+  | ["size", r] => do pure (.size (← r.toNat?))
+  | ["empty", r] => do pure (.empty (← r.toNat?))
+  | ["copyto", r] => do pure (.copyTo (← r.toNat?))
+  | ["moveto", r] => do pure (.moveTo (← r.toNat?))
+  | ["alloc", r, m] => do pure (.alloc (← r.toNat?) (← m.toNat?))
+  | ["dealloc", r] => do pure (.dealloc (← r.toNat?))
+  | ["copyctor", r, s] => do pure (.copyCtor (← r.toNat?) (← s.toNat?))
+  | ["movector", r, s] => do pure (.moveCtor (← r.toNat?) (← s.toNat?))
+  | ["assign", r, s] => do pure (.assign (← r.toNat?) (← s.toNat?))
+  | ["massign", r, s] => do pure (.moveAssign (← r.toNat?) (← s.toNat?))
+  | ["dtor", r] => do pure (.dtor (← r.toNat?))
   | _ => none
+
+def showOut : Out → String
+  | .ok => "ok"
+  | .val v => showOpt v
+  | .num n => toString n
+  | .bool b => if b then "1" else "0"
+  | .list l => "[" ++ ",".intercalate (l.map toString) ++ "]"
+  | .leak n => s!"LEAK {n}"
+
+def stepRB (s : St) (ts : List String) : Option (St × String) := do
+  let op ← parseOp ts
+  match stepOp s.rb op with
+  | some (rb', out) => pure (ans { s with rb := rb' } (showOut out))
+  | none => pure (s, "LIFETIME-ERROR")
 
 def step (s : St) (ts : List String) : St × String :=
   match ts with
